@@ -269,6 +269,9 @@ func GetProjectList(context db.DB) ([]*Project, error) {
 			common.DealWithErr(iterator.Error())
 			break
 		}
+		if len(iterator.Value()) == 0 {
+			continue
+		}
 		projectList = append(projectList, parseProject(iterator.Value()))
 	}
 
